@@ -257,6 +257,100 @@ def prefix_handle(ctx, stats, ph):
                 ctx.fail("%s:%s:wrong-verdict" % (fn, v6[fam]), "%s expected member=%s -> %s" % (line, e["member"], a), rp)
     return h
 
+# ---------------------------------------------------------------- the whole sockaddr_storage image (GenSockAddrFrame)
+FRAME_FN = {"tl": "net_addr_truncate_preflen", "ps": "sa_port_set", "as": "sa_addr_set", "si": "sa_init", "cp": "sa_copy"}
+
+def frame_line(c):
+    i = c["in"]; s = i["s"]; k = i["k"]
+    line = "ss %s %s %s %d %s %s %d" % (k, s["fam"], hexs(groups_bytes(s["addr"])), s["port"], hexs(bytes(s["flow"])),
+                                        hexs(bytes(s["scope"])), s["pad"])
+    if k == "tl": line += " %d" % i["l"]
+    elif k == "ps": line += " %d" % i["p"]
+    elif k == "as": line += " %s" % hexs(groups_bytes(i["a"]))
+    elif k == "cp": line += " %d" % i["dpad"]
+    return line
+
+def parse_layout(a):
+    if isinstance(a, dict): raise common.Infra("sockaddr driver died on the layout query: %s" % a["raw"][-500:])
+    _, f = kv(a)
+    lay = {"ss": int(f["ss"])}
+    for fam in "46":
+        lay[fam] = {"af": unhex(f["af" + fam]), "size": int(f["size" + fam]), "fields": {}}
+        for name in ("fam", "port", "flow", "addr", "scope"):
+            if name + fam in f:
+                off, sz = f[name + fam].split(",")
+                lay[fam]["fields"][name] = (int(off), int(sz))
+    return lay
+
+def render_fields(lay, rec):
+    """the bytes the record puts into each field of its family's sockaddr (layout reported by the driver)"""
+    fam = rec["fam"]; L = lay[fam]
+    out = {"fam": L["af"], "port": int(rec["port"]).to_bytes(2, "big"), "addr": groups_bytes(rec["addr"])}
+    if fam == "6":
+        out["flow"] = bytes(rec["flow"]); out["scope"] = bytes(rec["scope"])
+    for name, b in out.items():
+        if len(b) != L["fields"][name][1]: raise common.Infra("field %s%s: %d bytes rendered, %d in the structure" % (name, fam, len(b), L["fields"][name][1]))
+    return out
+
+FIELD_WORD = {"fam": "family", "port": "port", "flow": "flowinfo", "addr": "address", "scope": "scope-id"}
+
+def frame_handle(ctx, stats, lay):
+    def region(fam, off):
+        L = lay[fam]
+        for name, (o, n) in L["fields"].items():
+            if o <= off < o + n: return name
+        return "padding" if off < L["size"] else "tail"
+    def h(line, c, a):
+        i = c["in"]; e = c["expect"]; k = i["k"]; s = i["s"]; t = e["after"]; fam = s["fam"]
+        fn = FRAME_FN[k]; famn = FAMNAME[fam]
+        ctx.add(evaluations=1)
+        rp = {"case": line, "spec": c}
+        if isinstance(a, dict):
+            ctx.fail("%s:%s:%s" % (fn, famn, crash_kind(a)), a["raw"], rp); return
+        _, f = kv(a)
+        if "pre" not in f: raise common.Infra("sockaddr driver refused the case %r: %s" % (line, a))
+        pre = unhex(f["pre"]); post = unhex(f["post"]); L = lay[fam]
+        stats["frame_" + k] += 1
+        if int(f["rc"]) != 0:
+            ctx.fail("%s:%s:fails" % (fn, famn), "%s -> rc=%s" % (line, f["rc"]), rp); return
+        # what the image must be after the call: the image before (tl/ps/as: the address itself; si/cp: the pattern
+        # the destination held) with the fields of the reference's `after` record stored over it
+        exp = bytearray(pre)
+        if k in ("tl", "ps", "as"):     # the driver rendered the `before` record: its image must say the same
+            for name, b in render_fields(lay, s).items():
+                o, n = L["fields"][name]
+                if pre[o:o + n] != b: raise common.Infra("driver image of %r disagrees with the record in field %s" % (line, name))
+        if k == "cp":
+            src = unhex(f["src"])
+            for name, b in render_fields(lay, s).items():
+                o, n = L["fields"][name]
+                if src[o:o + n] != b: raise common.Infra("driver source image of %r disagrees with the record in field %s" % (line, name))
+            exp[:L["size"]] = src[:L["size"]]       # the family's whole sockaddr travels, padding included
+        if e["zeroed"]:
+            exp[:L["size"]] = bytes(L["size"])
+        for name, b in render_fields(lay, t).items():
+            o, n = L["fields"][name]
+            exp[o:o + n] = b
+        free = set()
+        if not e["addrspec"]:
+            o, n = L["fields"]["addr"]; free = set(range(o, o + n))
+        if not e["tailspec"]:           # bytes of the storage behind the family's sockaddr: not specified for sa_init / sa_copy
+            free |= set(range(L["size"], lay["ss"]))
+        diff = [o for o in range(lay["ss"]) if o not in free and exp[o] != post[o]]
+        if not diff:
+            stats["frame_ok"] += 1; return
+        regs = []
+        for o in diff:
+            r = region(fam, o)
+            if r not in regs: regs.append(r)
+        for r in regs:
+            if r == "addr": key = "%s:%s:wrong-result" % (fn, famn)
+            elif r in FIELD_WORD: key = "%s:%s:%s-changed" % (fn, famn, FIELD_WORD[r])
+            else: key = "%s:%s:%s-bytes-changed" % (fn, famn, r)
+            ctx.fail(key, "%s\nbytes at offsets %s of the sockaddr_storage image differ from the reference\n  before  : %s\n  expected: %s\n  got     : %s"
+                     % (line, diff[:12], pre[:32].hex(" "), bytes(exp[:32]).hex(" "), post[:32].hex(" ")), rp)
+    return h
+
 # ---------------------------------------------------------------- the check
 def run(ctx):
     real = ctx
@@ -287,6 +381,7 @@ def run_inner(real, agg):
                          "GenSockAddr/all ports %d..%d + seeded random" % (n * 16384, n * 16384 + 16383)))
     jobs.append(("GenSockAddrNeg", "GenSockAddrNeg.cfg" if quick else "GenSockAddrNeg_thorough.cfg", "GenSockAddrNeg"))
     jobs.append(("GenSockAddrPrefix", "GenSockAddrPrefix.cfg" if quick else "GenSockAddrPrefix_thorough.cfg", "GenSockAddrPrefix"))
+    jobs.append(("GenSockAddrFrame", "GenSockAddrFrame.cfg" if quick else "GenSockAddrFrame_thorough.cfg", "GenSockAddrFrame"))
     builds = [("clang", "-O1", "asan", [])]
     if not quick:
         builds += [("gcc", "-O2", "asan", []), ("gcc", "-O2", None, ["-DDRV_GUARD"])]
@@ -297,12 +392,13 @@ def run_inner(real, agg):
             exes.append((("%s%s-%s" % (cc_, opt, san or "guardpage")),
                          common.cc(SRC, "%s/sockaddr_%d" % (d, n), compiler=cc_, opt=opt, san=san, defs=defs, hooks=False)))
         results = [f.result() for f in futs]
-    fmt_cases = []; neg_cases = []; pre_cases = []
+    fmt_cases = []; neg_cases = []; pre_cases = []; frm_cases = []
     for (m, cfg, label), (r, cases) in zip(jobs, results):
         ctx.tlc_stats(r, label + "/" + cfg)
         ctx.log("TLC %s: %d distinct cases, %.1fs" % (label, len(cases), r.wall))
         if m == "GenSockAddr": fmt_cases += cases
         elif m == "GenSockAddrNeg": neg_cases += cases
+        elif m == "GenSockAddrFrame": frm_cases += cases
         else: pre_cases += cases
     # vacuity: every generator action contributed cases (coverage mode is ~15x slower on these recursive
     # definitions, so the per-action counts are taken from the emitted corpus instead)
@@ -311,9 +407,14 @@ def run_inner(real, agg):
         byact["fmt:" + c["fam"] + (":port" if c["port"] else "")] += 1
     for c in pre_cases: byact["prefix:" + c["in"]["k"] + ":" + c["expect"]["v"]] += 1
     for c in neg_cases: byact["parse:" + c["fn"] + ":" + c["r"]["v"]] += 1
+    for c in frm_cases:
+        i = c["in"]; full = i["k"] == "tl" and i["l"] == (32 if i["s"]["fam"] == "4" else 128)
+        byact["frame:" + i["k"] + ":" + i["s"]["fam"] + (":full-length" if full else "") + (":nonzero-frame" if i["s"]["pad"] else "")] += 1
     wanted = ["fmt:4", "fmt:6", "fmt:u", "fmt:4:port", "fmt:6:port", "prefix:l2m:ok", "prefix:l2m:reject", "prefix:m2l:ok",
               "prefix:tl:ok", "prefix:tm:ok", "prefix:in:ok", "prefix:pn:ok", "prefix:pn:reject"] + \
-             ["parse:%s:%s" % (f, v) for f in ("pa", "pp", "pn") for v in ("ok", "reject", "unspec")]
+             ["parse:%s:%s" % (f, v) for f in ("pa", "pp", "pn") for v in ("ok", "reject", "unspec")] + \
+             ["frame:%s:%s:nonzero-frame" % (k, f) for k in ("tl", "ps", "as", "si", "cp") for f in "46"] + \
+             ["frame:tl:%s:full-length:nonzero-frame" % f for f in "46"]
     missing = [w for w in wanted if not byact[w]]
     if missing: raise common.Infra("vacuous corpus: no cases for %s" % missing)
     ctx.cov["cases_by_generator_action"] = dict(byact)
@@ -369,13 +470,17 @@ def run_inner(real, agg):
             nitems.append(("%s %s" % (c["fn"], hexs(t)), None, (c["fn"], t, c["r"])))
         run_.run(nitems, ph)
         run_.run(prefix_items(pre_cases), prefix_handle(agg, xst, ph))
-        ctx.add(distinct_nontrivial=len(fst["texts"]) + len(pst["texts"]) + sum(xst[k] for k in ("l2m", "m2l", "tl", "tm", "in")))
+        # in-place operations compared as the whole sockaddr_storage image
+        lay = parse_layout(common.batch_run(exe, ["lay"], timeout=60, env=ASAN_ENV)[0])
+        run_.run([(frame_line(c), None, c) for c in frm_cases], frame_handle(agg, xst, lay))
+        ctx.add(distinct_nontrivial=len(fst["texts"]) + len(pst["texts"]) + sum(xst[k] for k in ("l2m", "m2l", "tl", "tm", "in")) + xst["frame_ok"])
         ctx.cov.setdefault("builds", []).append({
             "build": bname, "format_calls_ok_exact_text": fst["ok"], "format_calls_too_small_buffer": fst["toosmall"],
             "format_calls_grey_zone_refused": fst["grey_fail"], "format_calls_text_unspecified": fst["undecided"],
             "distinct_texts_formatted": len(fst["texts"]), "parse_ok": pst["ok"], "parse_reject": pst["reject"],
             "parse_unspecified_memory_safety_only": pst["unspec"], "roundtrip_only": xst["roundtrip_only"],
             "prefix": {k: xst[k] for k in ("l2m", "m2l", "tl", "tm", "in")},
+            "whole_image": {k: xst["frame_" + k] for k in ("tl", "ps", "as", "si", "cp", "ok")},
             "cases_skipped_after_repeated_crash_of_same_op_family_capacity": run_.skipped,
             "crash_combinations": {"%s/%s/cap=%s" % k: v for k, v in run_.crashes.items() if v}})
         ctx.log("build %s: fmt ok=%d toosmall=%d grey=%d undecided=%d; parse ok=%d reject=%d unspec=%d; prefix=%d; skipped=%d"
@@ -391,7 +496,10 @@ def run_inner(real, agg):
                        "shape, representative addresses x boundary ports, seeded pseudo-random addresses with random ports, "
                        "thorough: every port 0..65535 on one address per family, UNIX paths up to sun_path), each formatted "
                        "into EVERY capacity 0..sure+1; GenSockAddrNeg (every single-character edit of valid texts, long texts); "
-                       "GenSockAddrPrefix (all prefix lengths incl. out of range, all masks, truncation, membership). "
+                       "GenSockAddrPrefix (all prefix lengths incl. out of range, all masks, truncation, membership); "
+                       "GenSockAddrFrame (net_addr_truncate_preflen at every length 0..max+2, sa_port_set, sa_addr_set, sa_init, "
+                       "sa_copy on addresses with non-zero port / flowinfo / scope id / padding patterns, compared as the whole "
+                       "128-byte sockaddr_storage image: only the field the reference changes may differ). "
                        "distinct_nontrivial = distinct (function, exact text) pairs produced / decided by the parsers + prefix cases; "
                        "a capacity sweep of one address counts once.")
     ctx.assumptions += ["TLA+ reference modules under specs/net are the oracle (dotted quad, RFC 5952, RFC 4291 2.2 forms 1-2)",
